@@ -337,6 +337,11 @@ func checkC08(p *Prog, r *Report) {
 							if !ok {
 								continue
 							}
+							// the entry under a key taken from the list of all keys of the very same map (a walk in key order) is the walk's
+							// own element, not a reference to another entry
+							if _, _, own := sortedKeyWalk(&Term{Op: "deref", Args: []*Term{NewOrigin(p, fn).Of(lk)}}); own {
+								continue
+							}
 							nLook++
 							fam := strings.TrimSuffix(fld, "s")
 							key := kp("VALIDATE", "aol-genesis-lookup:"+FuncName(fn)+"→"+fld)
@@ -420,6 +425,13 @@ func checkC08(p *Prog, r *Report) {
 					}
 				})
 				ok2 := get != nil && (kt.Eq(get.Args[2]) || kt.Contains(func(x *Term) bool { return x.Eq(get.Args[2]) }))
+				if !ok2 && get == nil {
+					// one pass over the registry: (ids, entries) := lister(ctx); key from ids[i], value &entries[i] of the same call and index
+					if L, okW := didParallelWalk(p, dm, kt, vt); okW {
+						ok2 = true
+						checkParallelResultsUntouched(p, r, kp("ORIGIN", FuncName(L)+"#parallel-results-untouched"), L)
+					}
+				}
 				r.Check(ok2, kp("ORIGIN", "x/did.ExportGenesis#key=store-key-of-exported-entry"), "export: each entry is exported under the identifier it is stored under", p.Pos(mu.Pos()),
 					"key ≡ did of GetDIDDocument(ctx, did)", fmt.Sprintf("key=%v value=%v", kt, vt))
 			}
